@@ -64,6 +64,19 @@ func c09Workloads(quick bool) []replWorkload {
 	}
 	ws = append(ws, replWorkload{Name: "empty-ring-started-frame-late", Steps: late, RestartLeaderAt: 2500 * ms, JoinAt: 3800 * ms, HoldStarted: 8 * sec, EndAt: 30 * sec, Sparse: true, CutStride: 401,
 		LeaderMod: func(c *hapi.Config) { c.RingSz = 1024; c.RingMaxSz = 64 << 20 }})
+	// the record the follower is told to sync up to is the LAST one of a log file and belongs to a hold that expires
+	// while the follower's "started" frame is late; meanwhile the leader has rotated and writes into the new file
+	// (positions with a smaller per-file offset than the bound's): re-entries of a hold, which show when applied twice
+	var rot []TStep
+	for i := 0; i < 3; i++ {
+		rot = append(rot, at(1500*ms+int64(i)*20*ms, z(hapi.Cmd{Type: 1, Req: byte(1 + i), Key: byte(1 + i), Id: 1, Expried: 600, Rcount: 5})))
+	}
+	rot = append(rot, at(1600*ms, z(hapi.Cmd{Type: 1, Req: 4, Key: 4, Id: 1, Expried: 2}))) // fourth record: rotates; ends by time at about 4.6 s
+	rot = append(rot, at(2500*ms, z(hapi.Cmd{Type: 1, Req: 5, Key: 1, Id: 1, Expried: 600, Rcount: 5})),
+		at(2600*ms, z(hapi.Cmd{Type: 1, Req: 6, Key: 2, Id: 1, Expried: 600, Rcount: 5})),
+		at(9000*ms, z(hapi.Cmd{Type: 1, Req: 7, Key: 3, Id: 1, Expried: 600, Rcount: 5})))
+	ws = append(ws, replWorkload{Name: "rotation-while-started-frame-late", Steps: rot, JoinAt: 1800 * ms, HoldStarted: 6 * sec, EndAt: 30 * sec, Sparse: true, CutStride: 401,
+		LeaderMod: func(c *hapi.Config) { c.RewriteSz = 12 + 64*4; c.FileBuf = 64 }})
 	// three rotations before the follower joins; the records of the second file are all released again, so the
 	// compacted file only holds records of file 1 while the leader writes file 4
 	var gap []TStep
